@@ -139,17 +139,28 @@ fn compare_inherent_items(first: &[syn::ImplItem], second: &[syn::ImplItem]) {
                     if first_item.generics.params.len() != second_item.generics.params.len() {
                         abort!(first_item.generics, "Generics don't match between impls");
                     }
+                    if first_item.vis != second_item.vis {
+                        abort!(second_item, "Visibility doesn't match between impls");
+                    }
                 } else {
                     abort!(first_item, "Not found in one of the impls");
                 }
             }
             syn::ImplItem::Type(first_item) => {
-                if second_types.swap_remove(&first_item.ident).is_none() {
+                if let Some(second_item) = second_types.swap_remove(&first_item.ident) {
+                    if first_item.vis != second_item.vis {
+                        abort!(second_item, "Visibility doesn't match between impls");
+                    }
+                } else {
                     abort!(first_item, "Not found in one of the impls");
                 }
             }
             syn::ImplItem::Fn(first_item) => {
-                if second_fns.swap_remove(&first_item.sig.ident).is_none() {
+                if let Some(second_item) = second_fns.swap_remove(&first_item.sig.ident) {
+                    if first_item.vis != second_item.vis {
+                        abort!(second_item, "Visibility doesn't match between impls");
+                    }
+                } else {
                     abort!(first_item, "Not found in one of the impls");
                 }
             }
